@@ -126,7 +126,7 @@ def decoder():
             while True:
                 byte = yield
                 res.extend(byte)
-                if res[-1] == ord("#") and res[-2] != ord("'"):
+                if res[-1] == ord("#"):
                     byte = yield
                     res.extend(byte)
                     byte = yield
